@@ -84,3 +84,25 @@ def main(names, tier, folder="mutants", expect="CAUGHT"):
             shutil.rmtree(keep, ignore_errors=True)
     print(f"{len(patches) - bad}/{len(patches)} {folder} {'caught' if expect == 'CAUGHT' else 'held (no false alarm)'}")
     return 0 if not bad else 1
+
+
+def seeded(names, tier):
+    """regression over /verif/seeded/<id>/patch.diff: the check(s) recorded as CAUGHT in meta.json must still catch the change"""
+    import json
+    dirs = sorted(glob.glob(os.path.join(env.VERIF_DIR, "seeded", "*")))
+    if names:
+        dirs = [d for d in dirs if any(n in os.path.basename(d) for n in names)]
+    bad = 0
+    for d in dirs:
+        sid = os.path.basename(d)
+        meta = json.load(open(os.path.join(d, "meta.json")))
+        props = [p for p, c in meta.get("checks", {}).items() if c.get("verdict") == "CAUGHT"] or [meta["property"]]
+        for prop in props:
+            name, _, status, info, dt = _run_one(os.path.join(d, "patch.diff"), sid, prop, tier, os.environ.get("VERIF_MUTANT_RUNS"))
+            print(f"{status:14s} {sid} [{prop}]  ({dt:.0f}s)")
+            if status != "CAUGHT":
+                bad += 1
+                print("   " + info.replace("\n", "\n   ")[:600])
+            sys.stdout.flush()
+    print(f"{len(dirs)} seeded changes, {bad} not caught")
+    return 0 if not bad else 1
